@@ -110,8 +110,12 @@ func (cl *verifCloner) copyInto(dst, src reflect.Value) {
 			return
 		}
 		c := src.Cap()
-		key := verifSliceKey{src.Pointer(), c, t}
+		// aliases are recognised across slice types with the same element type ([]byte vs. secretKeyValue)
+		key := verifSliceKey{src.Pointer(), c, t.Elem()}
 		n, ok := cl.slices[key]
+		if ok && n.Type() != t {
+			n = n.Convert(t)
+		}
 		if !ok {
 			n = reflect.MakeSlice(t, c, c)
 			cl.slices[key] = n
